@@ -126,6 +126,6 @@ def pytest_sessionfinish(session, exitstatus):
             script.append("disconnect")
         if not script or script[0] != "connect":
             continue
-        traces.append({"script": script, "events": s.events, "source": "repository tests"})
+        traces.append({"script": script, "failAt": 0, "events": s.events, "source": "repository tests"})
     with open(out, "w") as f:
         json.dump(traces, f)
